@@ -327,6 +327,7 @@ let simple_check (o : toracles) (items : string list) (toks : tok list) hand : s
     | _ -> raise Not_simple in
   let peek_tok s = match !ts with Tok x :: t when x = s -> ts := t; true | _ -> false in
   let k = ref 0 in
+  let bounce = ref false and stored = ref 0 in
   let rec go = function
     | [] -> ()
     | ('S', c) :: rest ->
@@ -336,21 +337,23 @@ let simple_check (o : toracles) (items : string list) (toks : tok list) hand : s
         let r = next_reply () in
         let rep = Reply (n_of_int r) in
         if starts_with u "HELO " || starts_with u "EHLO " then begin
+          stored := 0;
           if r = 250 then emit [Note NBoundary; Note NHelo; Note (NEsmtp (starts_with u "EHLO ")); rep] else raise Not_simple;
           if peek_tok "O" then evs := !evs @ [TOffer];
           go rest end
         else if starts_with u "MAIL FROM:" then begin
           (if r / 100 = 2 then
              (match o_addr false (bytes_of_str (String.sub line 10 (String.length line - 10))) with
-              | AP_ok (a, _, _) -> emit [Note (NMail a); rep]
-              | _ -> emit [Note (NMail (bytes_of_str "?")); rep])
+              | AP_ok (a, _, _) -> bounce := (a = []); stored := 0; emit [Note (NMail a); rep]
+              | _ -> bounce := false; stored := 0; emit [Note (NMail (bytes_of_str "?")); rep])
            else emit [rep]); go rest end
         else if starts_with u "RCPT TO:" then begin
           let arg = bytes_of_str (String.sub line 8 (String.length line - 8)) in
           (match o_addr true arg with
            | AP_ok (a, None, cls) ->
-               if r / 100 = 2 && r <> 252 then emit [Note (NRcpt (a, cls)); rep]
-               else if r = 550 then emit [Note NWithdraw; rep]
+               if r / 100 = 2 && r <> 252 then (incr stored; emit [Note (NRcpt (a, cls)); rep])
+               (* second recipient of a bounce: only with an open bounce transaction that has one; another 550 is just a reply *)
+               else if r = 550 && !bounce && !stored >= 1 then emit [Note NWithdraw; rep]
                else emit [rep]
            | _ -> if r / 100 = 2 then emit [Note (NRcpt (bytes_of_str "?", RNotLocal)); rep] else emit [rep]);
           go rest end
@@ -377,7 +380,7 @@ let simple_check (o : toracles) (items : string list) (toks : tok list) hand : s
               | Auth_ok nm when o.o_clear.o_authperm -> emit [Note (NAuth nm); rep]
               | _ -> emit [Note (NAuth (bytes_of_str "?")); rep])
            else emit [rep]); go rest end
-        else if u = "RSET" then (emit (if r = 250 then [Note NBoundary; rep] else [rep]); go rest)
+        else if u = "RSET" then (stored := 0; emit (if r = 250 then [Note NBoundary; rep] else [rep]); go rest)
         else if u = "QUIT" then (emit [rep; Closed]; if rest <> [] then raise Not_simple)
         else if u = "NOOP" || starts_with u "VRFY" then (emit [rep]; go rest)
         else if u = "STARTTLS" then begin
